@@ -122,7 +122,7 @@ func (w *World) close() {
 func (w *World) importNewWallet(t *rapid.T, n int) *mwallet {
 	size := []int{16, 20, 24, 28, 32}[rapid.IntRange(0, 4).Draw(t, "entSize")]
 	ent := rapid.SliceOfN(rapid.Byte(), size, size).Draw(t, "entropy")
-	pass := fmt.Sprintf("pass-%d-%s", n, rapid.StringMatching(`[a-zA-Z0-9]{2,8}`).Draw(t, "pass"))
+	pass := fmt.Sprintf("pass%dX%s", n, rapid.StringMatching(`[a-zA-Z0-9@#$%^&]{2,8}`).Draw(t, "pass"))
 	keys, bumps := sim.EntropyFor(ent, pass)
 	if keys == nil {
 		t.Fatalf("HARNESS: no usable entropy")
